@@ -160,3 +160,32 @@ F("E20", "C03", N, "    pairwise = itertools.zip_longest(values[::2], values[1::
   "    pairwise = zip(values[::2], values[1::2])\n    values = [a * b for a, b in pairwise]\n  return values[0]", "R-C03-TREE", "FastProduct drops the unpaired node")
 T("E21", "C03", N, "    quadruplewise = zip(t[::2], t[1::2], values[::2], values[1::2])\n    t = [a * d + b * c for a, b, c, d in quadruplewise]",
   "    quadruplewise = zip(t[1::2], t[::2], values[1::2], values[::2])\n    t = [a * d + b * c for a, b, c, d in quadruplewise]", "both pairs mirrored: same T")
+
+# ---------------------------------------------------------------------------------- C04
+SC = L + "special_case_factoring.py"
+RS = L + "rsa_single_checks.py"
+F("A04", "C04", RU, "  for _ in range(max_steps):\n    if gmpy.is_square(b2):", "  for _ in range(max_steps - 1):\n    if gmpy.is_square(b2):", "R-C04-FERMAT", "Fermat trip count - 1")
+F("A05", "C04", RU, "  for _ in range(max_steps):\n    if gmpy.is_square(b2):\n      return a + gmpy.isqrt(b2), a - gmpy.isqrt(b2)\n\n    # or a += 1; b2 = a * a - n\n    b2 += a\n    a += 1\n    b2 += a\n",
+  "  for _ in range(max_steps):\n    b2 += a\n    a += 1\n    b2 += a\n    if gmpy.is_square(b2):\n      return a + gmpy.isqrt(b2), a - gmpy.isqrt(b2)\n", "R-C04-FERMAT", "Fermat: advance before test (a0 skipped)")
+F("A06", "C04", RU, "    b2 += a\n    a += 1\n    b2 += a\n", "    b2 += 4 * a + 4\n    a += 2\n", "R-C04-FERMAT", "Fermat: step 2 with matching b2")
+T("A07b", "C04", RU, "    b2 += a\n    a += 1\n    b2 += a\n", "    a += 1\n    b2 = a * a - n\n", "Fermat: non-incremental update")
+F("A06b", "C04", RU, "  a += 1  # ceil(sqrt(n))\n  b2 = a * a - n", "  a += 2  # ceil(sqrt(n))\n  b2 = a * a - n", "R-C04-FERMAT", "Fermat: start at isqrt+2")
+F("A06c", "C04", RS, "      factors = rsa_util.FermatFactor(n, self._max_steps)", "      factors = rsa_util.FermatFactor(n, self._max_steps // 2)", "R-C04-FERMAT", "half the configured steps")
+F("A22", "C04", RU, "    p0 = gmpy.isqrt(n + (diff // 2) ** 2) + diff // 2", "    p0 = gmpy.isqrt(n + (diff // 2) ** 2) + diff // 4", "R-C04-GUESS", "guess offset D/4")
+F("A22b", "C04", RU, "    p0 = gmpy.isqrt(n + (diff // 2) ** 2) + diff // 2", "    p0 = gmpy.isqrt(n + (diff // 4) ** 2) + diff // 2", "R-C04-GUESS", "radicand with D/4")
+F("A23", "C04", RU, "      2 ** (prime_size - 160),\n", "", "R-C04-TABLE", "difference 2^(L-160) dropped")
+F("A23b", "C04", RU, "      2 ** (prime_size - 100),\n", "      2 ** (prime_size - 101),\n", "R-C04-TABLE", "difference 2^(L-100) mistyped")
+F("A24", "C04", RU, "  if prime_size < 384:\n    return None", "  if prime_size <= 384:\n    return None", "R-C04-TABLE", "gate excludes 384-bit primes")
+F("A24b", "C04", RU, "  prime_size = n.bit_length() // 2\n", "  prime_size = n.bit_length() // 2 - 1\n", "R-C04-TABLE", "prime size off by one")
+F("A25", "C04", RU, "    factors = special_case_factoring.FactorWithGuess(n, p0)\n    if factors:\n      return factors\n  return None",
+  "    factors = special_case_factoring.FactorWithGuess(n, p0)\n    if factors:\n      return factors\n    return None\n  return None", "R-C04-EXHAUST", "give up after the first difference")
+F("A26", "C04", SC, "        if 1 < g < n:\n          return [g, n // g]\n  return None", "        if 1 < g < n:\n          return [g, n // g]\n      return None\n  return None", "R-C04-EXHAUST", "re-introduce the in-loop return None (fixed defect)")
+F("A27", "C04", RS, "        for p_1 in {p_0, p_0 | msb_1, p_0 | msb_11}:", "        for p_1 in {p_0, p_0 | msb_1}:", "R-C04-MSB", "msb_11 variant dropped")
+F("A27b", "C04", RS, "      msb_1 = 2 ** (psize - 1)\n", "      msb_1 = 2 ** (psize - 2)\n", "R-C04-MSB", "msb at the wrong position")
+F("A27c", "C04", RS, "          factors = special_case_factoring.FactorWithGuess(n, p_1)\n          if factors:\n            break\n",
+  "          factors = special_case_factoring.FactorWithGuess(n, p_1)\n          break\n", "R-C04-EXHAUST", "only the first msb variant is tried")
+F("A27d", "C04", RS, "          if d.bit_length() > max_dsize:\n            break\n          factors = rsa_util.CheckFraction(n, d)", "          if d.bit_length() > max_dsize:\n            break\n          factors = rsa_util.CheckFraction(n, d)\n          if not factors:\n            break",
+  "R-C04-EXHAUST", "permuted patterns: stop at first failing psize")
+T("A29", "C04", RU, "  differences = [\n      2 ** (prime_size - 100),\n      2 ** (prime_size - 128),\n      2 ** (prime_size - 160),\n      2 ** (prime_size - 256),\n      2 ** (prime_size - 2),\n      2 ** (prime_size - 3),\n  ]",
+  "  differences = [2 ** (prime_size - k) for k in (100, 128, 160, 256, 2, 3)]", "differences via comprehension")
+T("A29b", "C04", RU, "    p0 = gmpy.isqrt(n + (diff // 2) ** 2) + diff // 2", "    half = diff // 2\n    p0 = gmpy.isqrt(n + half * half) + half", "guess with a temp")
